@@ -685,7 +685,7 @@ func TestC09(t *testing.T) {
 		}
 	}
 
-	n := r.N(15000, 500000)
+	n := r.N(15000, 1200000)
 	steps := r.N(70, 90)
 	workers := 8
 	seeds := make([][2]uint64, n)
@@ -782,5 +782,5 @@ func TestC09(t *testing.T) {
 	if st.ofProcessing == 0 || st.ofAccepted == 0 || st.ofLagging == 0 || st.ofPopulated == 0 || st.ofHistorical == 0 || st.inBlock == 0 || st.boundary == 0 {
 		r.Inconclusive("a repeat class was never generated: %+v", *st)
 	}
-	r.Finish(r.N(2000, 50000))
+	r.Finish(r.N(2000, 100000))
 }
